@@ -21,9 +21,9 @@ Build ==
 
 ReadFail ==
   /\ phase = "build" /\ items # <<>>
-  /\ \E k \in 0..Len(DocToks(Doc)) :
-       /\ op' = [k |-> "read", at |-> k, delivered |-> Delivered(Doc, k)]
-       /\ result' = [ret |-> ReadResult(Doc, k, Gen)]
+  /\ \E k \in 0..Len(DocToks(Doc)), sticky \in BOOLEAN :
+       /\ op' = [k |-> "read", at |-> k, sticky |-> sticky, delivered |-> Delivered(Doc, k)]
+       /\ result' = [ret |-> ReadResult(Doc, k, Gen, sticky)]
   /\ phase' = "done" /\ UNCHANGED items
 
 WriteFail ==
